@@ -1871,3 +1871,39 @@ func c03PointPosition(c *Ctx, p *Prog) {
 	c.OK(R, "readFloat:point position", site, "the variables dp/nd are not named so any more: no claim")
 	c.Note("C03/R13 makes no claim: readFloat no longer has loop variables named dp and nd")
 }
+
+// c16NoShrinkingCaptures (C16/R15): the cell closures of the renderers are called once per cell and must start each
+// call in the same state: no closure assigns to a slice variable it captured a re-slice of that same variable with a
+// lower bound (x = x[k:]) — such a buffer only ever shrinks from call to call, until an index falls outside it.
+func c16NoShrinkingCaptures(c *Ctx, p *Prog) {
+	const R = "C16/R15"
+	n := 0
+	for _, fn := range p.Funcs(btabRel) {
+		if fn.Parent() == nil {
+			continue
+		}
+		eachInstr(fn, func(_ *ssa.BasicBlock, in ssa.Instruction) {
+			st, ok := in.(*ssa.Store)
+			if !ok {
+				return
+			}
+			fv, ok := st.Addr.(*ssa.FreeVar)
+			if !ok {
+				return
+			}
+			if _, isSl := st.Val.Type().Underlying().(*types.Slice); !isSl {
+				return
+			}
+			n++
+			shrinks := false
+			if sl, ok := st.Val.(*ssa.Slice); ok && sl.Low != nil {
+				if ld, ok := sl.X.(*ssa.UnOp); ok && ld.Op == token.MUL && ld.X == ssa.Value(fv) {
+					shrinks = true
+				}
+			}
+			c.Check(!shrinks, R, fmt.Sprintf("%s:captured %s#%d", fnName(fn), fv.Name(), n), p.pos(st.Pos()), "not re-sliced from the front",
+				"the closure assigns the captured slice "+fv.Name()+" a re-slice of itself with a lower bound: the variable lives across calls, so the buffer shrinks with every cell until an index falls outside it (CSV output with many columns panics while the text output is fine)")
+		})
+	}
+	c.Floor(R, "captured slice variables assigned in the renderers' closures", n, 1)
+}
